@@ -123,6 +123,7 @@ class FnSig:
         self.mut_self = False
         self.fallible = False
         self.defaults = {}
+        self.oracle = False
 
     def out_types(self):
         outs = []
@@ -222,6 +223,16 @@ class Fn9(FnTranslator):
                 c, t = const_lit(self.mod.consts[e.id])
                 return Term(c, t)
             raise Refuse('unbound or maybe-undefined variable %s (line %d)' % (e.id, e.lineno))
+        if isinstance(e, ast.Attribute) and e.attr == 'digest_size' and isinstance(e.value, ast.Call) and not e.value.args \
+                and isinstance(e.value.func, ast.Call) and isinstance(e.value.func.func, ast.Name) \
+                and e.value.func.func.id == 'getattr' and len(e.value.func.args) == 2 \
+                and isinstance(e.value.func.args[0], ast.Name) and e.value.func.args[0].id == 'hashlib':
+            a = self.expr(e.value.func.args[1], env)           # getattr(hashlib, alg)().digest_size
+            if a.ty != 'str':
+                raise Refuse('getattr(hashlib, non-str)')
+            self.fallible = True
+            t = self.fresh()
+            return Term(t, 'Z', a.binds + [(t, 'py_digest_size %s' % a.code)])
         if isinstance(e, ast.Attribute):
             ci = self.classref(e.value)
             if ci is not None:
@@ -461,7 +472,7 @@ class Fn9(FnTranslator):
         return terms
 
     def call_code(self, fs, recv, terms):
-        args = ([recv.code] if fs.kind == 'method' else []) + [t.code for t in terms]
+        args = (['Orc'] if fs.oracle else []) + ([recv.code] if fs.kind == 'method' else []) + [t.code for t in terms]
         binds = (recv.binds if recv is not None else []) + sum((t.binds for t in terms), [])
         return '%s %s' % (fs.gname, ' '.join(args)) if args else fs.gname, binds
 
@@ -470,6 +481,15 @@ class Fn9(FnTranslator):
         # struct
         if isinstance(f, ast.Attribute) and isinstance(f.value, ast.Name) and f.value.id == 'struct':
             return self.struct_call(e, env)
+        if isinstance(f, ast.Attribute) and isinstance(f.value, ast.Name) and f.value.id == 'hmac' and f.attr == 'HMAC' \
+                and len(e.args) == 1 and len(e.keywords) == 1 and e.keywords[0].arg == 'digestmod' and self.mod.oracle:
+            k = self.expr(e.args[0], env)
+            d = self.expr(e.keywords[0].value, env)
+            if k.ty != 'bytes' or d.ty != 'str':
+                raise Refuse('hmac.HMAC argument types')
+            self.fallible = True
+            t = self.fresh()
+            return Term(t, 'hmac', k.binds + d.binds + [(t, 'mk_hmac Orc %s %s' % (d.code, k.code))])
         fs, recv = self.resolve_fn(f, env)
         if fs is not None:
             terms = self.bind_args(fs, e, env)
@@ -533,6 +553,18 @@ class Fn9(FnTranslator):
                 isinstance(e.args[0].func, ast.Name) and e.args[0].func.id == 'bool' and len(e.args[0].args) == 1:
             x = self.truth(self.expr(e.args[0].args[0], env), e)
             return Term('(Z.b2z %s)' % x.code, 'Z', x.binds)
+        if name == 'int' and len(e.args) == 1 and isinstance(e.args[0], ast.Call) and isinstance(e.args[0].func, ast.Attribute) \
+                and isinstance(e.args[0].func.value, ast.Name) and e.args[0].func.value.id == 'math' \
+                and e.args[0].func.attr in ('ceil', 'floor') and len(e.args[0].args) == 1:
+            q = e.args[0].args[0]                # int(math.ceil(n / 2.0)), int(math.floor(n / 2.0)) for an int n (exact below 2^53)
+            if isinstance(q, ast.BinOp) and isinstance(q.op, ast.Div) and isinstance(q.right, ast.Constant) and q.right.value == 2.0:
+                n = self.expr(q.left, env)
+                if n.ty != 'Z':
+                    raise Refuse('math.%s argument' % e.args[0].func.attr)
+                if e.args[0].func.attr == 'ceil':
+                    return Term('(Z.div (Z.add %s 1) 2)' % n.code, 'Z', n.binds)
+                return Term('(Z.div %s 2)' % n.code, 'Z', n.binds)
+            raise Refuse('math.%s form (line %d)' % (e.args[0].func.attr, e.lineno))
         if name == 'divmod' and len(e.args) == 2:
             a, b = self.expr(e.args[0], env), self.expr(e.args[1], env)
             if a.ty != 'Z' or b.ty != 'Z':
@@ -550,7 +582,10 @@ class Fn9(FnTranslator):
             if [a.ty for a in args] != list(ptys):
                 raise Refuse('builtin %s argument types %r' % (name, [a.ty for a in args]))
             binds = sum((a.binds for a in args), [])
-            code = '%s %s' % (gname, ' '.join(a.code for a in args))
+            if '{' in gname:
+                code = gname.format(*[a.code for a in args])
+            else:
+                code = '%s %s' % (gname, ' '.join(a.code for a in args))
             if fallible:
                 self.fallible = True
                 t = self.fresh()
@@ -1099,7 +1134,8 @@ class Module9:
         'numberToByteArray': ('numberToByteArray', ['Z', 'Z'], 'bytes', False),
     }
 
-    def __init__(self, name, repo, items, requires=(), uses=(), builtins=None, consts=None):
+    def __init__(self, name, repo, items, requires=(), uses=(), builtins=None, consts=None, oracle=False):
+        self.oracle = oracle
         self.module_name = name
         self.repo = repo
         self.items = items
@@ -1127,8 +1163,8 @@ class Module9:
     def translate(self):
         out = ['(* GENERATED by translator/pylite_c09.py from %s -- do not edit. *)' % self.repo,
                'From Coq Require Import ZArith List Bool String.',
-               'From TV Require Import Base.Prelude Base.C09_Lib%s.' % ''.join(' ' + r for r in self.requires),
-               'Import ListNotations.', 'Open Scope Z_scope.', '']
+               'From TV Require Import Base.Prelude Base.C09_Lib Base.C09_Oracle%s.' % ''.join(' ' + r for r in self.requires),
+               'Import ListNotations.', 'Open Scope list_scope.', 'Open Scope Z_scope.', '']
         for u in self.uses:
             if callable(u):
                 u = u()
@@ -1185,11 +1221,13 @@ class Module9:
                 if not isinstance(d, ast.Constant):
                     raise Refuse('non-constant default')
                 fs.defaults[a.arg] = d.value
+            fs.oracle = self.oracle
             self.funcs[(cname, fname)] = fs
             ft = Fn9(self, fd, fs)
             code, monadic = ft.translate()
             fs.fallible = monadic
             params = ' '.join('(%s : %s)' % (p, ty_str(t)) for p, t in
+                              ([('Orc', ('raw', 'Oracles'))] if fs.oracle else []) +
                               ([('self', ('obj', fs.cls.rec))] if fs.kind == 'method' else []) + fs.params)
             outs = fs.out_types()
             rty = ty_str(outs[0]) if len(outs) == 1 else '(' + ' * '.join(ty_str(t) for t in outs) + ')'
